@@ -10,6 +10,8 @@ CONSTANTS
   PhraseSets <- PS_None
   InitShared = {{"D3"}}
   FriendUsers = {"u1"}
+  InitSess = {TRUE}
+  MaxSess = 0
   MaxCfg = 2
   MaxReq = 2
   MaxEnv = 2
@@ -19,6 +21,7 @@ CONSTANTS
   DirReplyLocks = TRUE
   ScanDirCycles = TRUE
   AlwaysAccumulate = FALSE
+  TickReportsAlways = TRUE
   FlagsTakenAtStart = TRUE
   RevertWithinTick = FALSE
 INVARIANT TypeOK
